@@ -204,7 +204,7 @@ func c10PassesYAML(t c10Term) string {
 // transformations: members of the form `constant | type` (both orders; strings, integers, booleans;
 // required and optional) with the disjunction pass, and configured defaults (fields_set_default)
 // on plain scalar members of the root.
-func c10Augment(d *Defs, idx int, seed uint64) c10Term {
+func c10Augment(d *Defs, idx int, seed uint64, zeroUnionDefaults bool) c10Term {
 	t := c10Term{}
 	r := newRng(seed*1000003 + uint64(idx)*97 + 11)
 	root := d.lookup(d.Root)
@@ -287,7 +287,11 @@ func c10Augment(d *Defs, idx int, seed uint64) c10Term {
 			if r.chance(50) {
 				alts[0], alts[1] = alts[1], alts[0]
 			}
-			root.Fields = append(root.Fields, Field{Name: name, Ty: srcOneOfScalars(alts...), Required: r.chance(50), Default: &dv})
+			req := r.chance(50)
+			if !zeroUnionDefaults && (dv.S == "" || dv.S == "0") {
+				req = true // an optional one with a zero-valued default is omitted by Go (recorded finding)
+			}
+			root.Fields = append(root.Fields, Field{Name: name, Ty: srcOneOfScalars(alts...), Required: req, Default: &dv})
 		}
 	}
 	if idx%4 == 3 && d.lookup("ZzSort") == nil && d.lookup("ZzLegend") == nil {
@@ -453,6 +457,7 @@ var c10Pinned = []c10Term{
 	{ID: "scalars", Degrade: 1, Src: `(defs "Root" ("Root" (struct (field "b" (bool) false false true) (field "bf" (bool) true false false) (field "i" (int 64 true - -) false false (n "-3")) (field "z" (int 64 true - -) false false (n "0")) (field "ir" (int 32 true - -) true false (n "7")) (field "f" (num 64 - -) false false (n "2.5")) (field "fi" (num 64 - -) true false (n "3")) (field "fl" (num 64 - -) false false (n "1000000")) (field "s" (string - - false) false false (s "hey")) (field "zs" (string - - false) false false (s "")) (field "sq" (string - - false) true false (s "a\"b\\c")) (field "c" (const (s "fixed")) true false -) (field "ci" (const (n "-47")) false false -))))`},
 	{ID: "const-int", Degrade: 1, Src: `(defs "Root" ("Root" (struct (field "cr" (const (n "75")) true false -) (field "co" (const (n "-47")) false false -) (field "cs" (const (s "fixed")) true false -))))`},
 	{ID: "const-punctuation", Degrade: 1, Pattern: true, Src: `(defs "Root" ("Root" (struct (field "u" (const (s "°C")) true false -) (field "j" (const (s "job=api")) true false -) (field "p" (const (s "a,b@c#d%e!")) false false -) (field "w" (const (s "données")) true false -) (field "sp" (const (s "hello world")) true false -) (field "m" (const (s "math")) true false -))))`},
+	{ID: "samekind-union-zero-default", Degrade: 1, Formats: []string{"cue"}, Src: `(defs "Root" ("Root" (struct (field "tz" (oneOfScalars (const (s "utc")) (string - - false)) false false (s "")) (field "n" (oneOfScalars (const (n "7")) (int 64 true - -)) false false (n "0")))))`},
 	{ID: "samekind-union-default", Degrade: 1, Formats: []string{"cue"}, Src: `(defs "Root" ("Root" (struct (field "tz" (oneOfScalars (const (s "utc")) (string - - false)) false false (s "browser")) (field "n" (oneOfScalars (const (n "0")) (int 64 true - -)) true false (n "3")) (field "tl" (oneOfScalars (string - - false) (const (s "utc"))) true false (s "x")))))`},
 	{ID: "imported-types-reused", Degrade: 1, Formats: []string{"cue"}, CueLib: true, Src: `(defs "Root" ("Root" (struct (field "sort" (ref "SortOrder") true false (s "asc")) (field "legend" (ref "LegendOptions") true false (o ("placement" (s "right")))) (field "tooltipSort" (ref "SortOrder") true false (s "desc")) (field "tooltipLegend" (ref "LegendOptions") false false (o ("placement" (s "top")) ("showLegend" false))) (field "thirdSort" (ref "SortOrder") false false (s "none")))) ("SortOrder" (enumS "asc" "desc" "none")) ("LegendOptions" (struct (field "placement" (string - - false) false false (s "bottom")) (field "showLegend" (bool) false false true) (field "width" (int 64 true - -) false false (n "120")))))`},
 	{ID: "negative-single-enum", Degrade: 1, Formats: []string{"cue"}, Src: `(defs "Root" ("Root" (struct (field "e" (ref "E") false false (n "-1")) (field "two" (ref "E2") false false (n "-2")))) ("E" (enumI -1)) ("E2" (enumI -1 -2)))`},
@@ -483,11 +488,36 @@ var c10Pinned = []c10Term{
 	{ID: "int-1e21-in-float-field", Degrade: 1, Src: `(defs "Root" ("Root" (struct (field "h" (num 64 - -) false false (n "1000000000000000000000")))))`},
 }
 
+// c10Needs: pinned terms / generated constructs whose failure on the unchanged tree is a defect of
+// cog that must first be recorded in /verif/known_findings.json (the check passes the recorded C10
+// ids as known=…; `--replay pinned:<id>` always runs the term)
+const c10ZeroUnionFinding = "C10/go/samekind-union-zero-default-omitted"
+
+var c10Needs = map[string]string{
+	"negative-single-enum":        "C10/cue/single-negative-enum-member-loses-sign",
+	"samekind-union-zero-default": c10ZeroUnionFinding,
+}
+
+func c10Known(args map[string]string, id string) bool {
+	if args["known"] == "*" {
+		return true
+	}
+	for _, k := range strings.Split(args["known"], ",") {
+		if k == id {
+			return true
+		}
+	}
+	return false
+}
+
 func c10ParseTerms(args map[string]string) ([]c10Term, error) {
 	var terms []c10Term
 	if args["pinned"] == "1" {
 		for _, t := range c10Pinned {
 			if only, ok := args["id"]; ok && only != t.ID {
+				continue
+			}
+			if need, gated := c10Needs[t.ID]; gated && args["id"] != t.ID && !c10Known(args, need) {
 				continue
 			}
 			terms = append(terms, t)
@@ -508,7 +538,7 @@ func c10ParseTerms(args map[string]string) ([]c10Term, error) {
 		d := genDefs(seed, i, o)
 		t := c10Term{}
 		if args["augment"] != "0" {
-			t = c10Augment(d, i, seed)
+			t = c10Augment(d, i, seed, c10Known(args, c10ZeroUnionFinding))
 		}
 		t.Src, t.Degrade = d.sexp(), argInt(args, "degrade", 2)
 		terms = append(terms, t)
